@@ -70,6 +70,14 @@ def main():
         with open(path, "w") as f:
             for k, h in enumerate(hs):
                 base = 1_700_000_000 + 100 * k
+                # lines that are not receptions (a blank line, a line cut short, a line of another kind) must not cost
+                # the receptions that follow them
+                if not replay and k % 997 == 500:
+                    f.write("\n")
+                if not replay and k % 1499 == 700:
+                    f.write('{"timestamp": 17\n')
+                if not replay and k % 2003 == 900:
+                    f.write('{"comment": "receiver restarted"}\n')
                 for i, (fr, rx, ms) in enumerate(h):
                     t = base + ms / 1000.0
                     if fmt == "legacy":
